@@ -47,10 +47,13 @@ IsMaster(node) == node.depth = 0 /\ IsZero(node.idx)
 Payload(version, depth, pfp, idx, c, keydata) ==
   version \o <<depth>> \o pfp \o idx \o c \o keydata
 
+\* a master key is serialised with zero depth, fingerprint and child number
+PfpOf(node) == IF IsMaster(node) THEN Zeros(4) ELSE node.pfp
+
 SerPub(node, version) ==
-  Payload(version, node.depth, node.pfp, node.idx, node.c, node.K)
+  Payload(version, node.depth, PfpOf(node), node.idx, node.c, node.K)
 SerPrv(node, version) ==
-  Payload(version, node.depth, node.pfp, node.idx, node.c, <<0>> \o node.k)
+  Payload(version, node.depth, PfpOf(node), node.idx, node.c, <<0>> \o node.k)
 
 \* field view of a 78-byte sequence (no validity judgement)
 Fields(p) == [version |-> SubSeq(p, 1, 4), depth |-> p[5], pfp |-> SubSeq(p, 6, 9),
